@@ -139,6 +139,12 @@ func (e *env) runSnap(o snapOpts) {
 						// float seam (DESIGN §7): on a non-dyadic grid the code's float orientation of a ring whose exact area is zero
 						// (a figure-eight of equal lobes) is rounding noise, the model's exact orientation says collinear
 						r.Dist["snap:not-compared(zero-area ring under float orientation on a non-dyadic grid)"]++
+					} else if c.gs.levelDiff != 4 && hasEqualAreaShells(sr.levels) && sameRingsDifferentGrouping(sr.levels, parseSnapAnswer(m)) {
+						// float seam (DESIGN §7): which shell a hole goes to, when several contain equally many of its vertices, is decided by the
+						// float shoelace areas of the shells; between shells of exactly equal area the order is rounding noise on a real grid
+						// (the model's areas are exact and tie). Same rings on every level, only their grouping into polygons differs, and two
+						// shells do have the same exact area: the oracles judge the implementation's own grouping
+						r.Dist["snap:not-compared(hole matching between shells of equal exact area on a non-dyadic grid)"]++
 					} else {
 						r.diff(Diff{Stream: o.stream, Op: ops[i], Impl: impl, Model: m, Note: c.describe()})
 					}
@@ -181,6 +187,81 @@ func (e *env) poison(c, other *snapCase) {
 	if got := sr.String(); got != want {
 		e.snapViolation("outside-grid-rejected", &pc, sr, "expected "+want, "")
 	}
+}
+
+// sameRingsDifferentGrouping: on every level the two answers consist of the same rings (as cyclic sequences, in either direction) and only
+// differ in which polygon a ring belongs to or in the order of the polygons
+func sameRingsDifferentGrouping(a, b map[uint][]polygonI) bool {
+	if len(a) != len(b) {
+		return false
+	}
+	key := func(ps []polygonI) []string {
+		var ks []string
+		for _, pg := range ps {
+			for _, rg := range pg {
+				ks = append(ks, canonCyclic(rg))
+			}
+		}
+		sort.Strings(ks)
+		return ks
+	}
+	for l, pa := range a {
+		pb, ok := b[l]
+		if !ok {
+			return false
+		}
+		ka, kb := key(pa), key(pb)
+		if len(ka) != len(kb) {
+			return false
+		}
+		for i := range ka {
+			if ka[i] != kb[i] {
+				return false
+			}
+		}
+	}
+	return true
+}
+
+// hasEqualAreaShells: some level has two polygons whose shells have exactly the same area
+func hasEqualAreaShells(levels map[uint][]polygonI) bool {
+	for _, ps := range levels {
+		seen := map[string]bool{}
+		for _, pg := range ps {
+			if len(pg) == 0 || len(pg[0]) < 3 {
+				continue
+			}
+			a := area2(pg[0])
+			k := a.Abs(a).String()
+			if seen[k] {
+				return true
+			}
+			seen[k] = true
+		}
+	}
+	return false
+}
+
+// canonCyclic: the lexicographically smallest rotation over both directions
+func canonCyclic(rg ring) string {
+	best := ""
+	n := len(rg)
+	for dir := 0; dir < 2; dir++ {
+		for off := 0; off < n; off++ {
+			var sb strings.Builder
+			for k := 0; k < n; k++ {
+				idx := (off + k) % n
+				if dir == 1 {
+					idx = ((off-k)%n + n) % n
+				}
+				fmt.Fprintf(&sb, "%d,%d ", rg[idx].x, rg[idx].y)
+			}
+			if s := sb.String(); best == "" || s < best {
+				best = s
+			}
+		}
+	}
+	return best
 }
 
 func hasZeroAreaRing(levels map[uint][]polygonI) bool {
@@ -247,6 +328,30 @@ func isF5(chains map[uint][]ring, l uint, offending ...edge) bool {
 	}
 	for _, e := range offending {
 		if !isRoutedRun(ch, e.a, e.b) {
+			return true
+		}
+	}
+	return false
+}
+
+// isF13: the identification predicate of known finding F13 (DESIGN §5): the level's result contains a polygon whose shell comes back as one
+// of its own holes (dedupeInnersOuters keeps one outer and one inner of a group of equal rings when there are as many of the one as of the
+// other) and that zero-area polygon has been given a further hole by matchInnersToPolygons (it is the smallest shell around it)
+func isF13(polys []polygonI) bool {
+	for _, pg := range polys {
+		if len(pg) < 3 || len(pg[0]) < 3 {
+			continue
+		}
+		shell := canonCyclic(pg[0])
+		same, other := 0, 0
+		for _, h := range pg[1:] {
+			if len(h) == len(pg[0]) && canonCyclic(h) == shell {
+				same++
+			} else {
+				other++
+			}
+		}
+		if same == 1 && other >= 1 { // exactly one copy of the shell among the holes: what the "as many outers as inners" branch leaves
 			return true
 		}
 	}
@@ -333,7 +438,9 @@ func checkC04(e *env) {
 			tested += n
 			if bad != "" {
 				known := ""
-				if ch := e.chainsFor(c); ch != nil && maxVisits(ch[l]) >= 3 {
+				if isF13(polys) {
+					known = "F13"
+				} else if ch := e.chainsFor(c); ch != nil && maxVisits(ch[l]) >= 3 {
 					// coverage lost/gained through the invented edge of F5: identified by an output edge that is not a routed run
 					for _, ed := range allEdges(polys) {
 						if !isRoutedRun(ch[l], ed.a, ed.b) {
